@@ -768,9 +768,11 @@ theorem readSeqContext3_cost (b : Bytes) (q pos : Nat) (r : Ctx3) (c : Cost)
 
 /-! ## the dispatch -/
 
-theorem gsub5_noPanic (b : Bytes) (pos : Nat) : (gsub5 b pos).noPanic := by
-  unfold gsub5
+theorem gsub5G_noPanic (old : Bool) (b : Bytes) (pos : Nat) : (gsub5G old b pos).noPanic := by
+  unfold gsub5G
   refine bind_noPanic (readU16_noPanic _ _ _) (fun format _ => ?_)
+  split
+  · exact True.intro
   split
   · exact bind_noPanic (readSeqContext1_noPanic _ _ _) (fun ⟨_, _⟩ _ => True.intro)
   split
@@ -778,6 +780,17 @@ theorem gsub5_noPanic (b : Bytes) (pos : Nat) : (gsub5 b pos).noPanic := by
   split
   · exact bind_noPanic (readSeqContext3_noPanic _ _ _) (fun ⟨_, _⟩ _ => True.intro)
   split <;> exact True.intro
+
+/-- `readGsubSubtable` with lookup type 5 (as repaired) never panics -/
+theorem gsub5_noPanic (b : Bytes) (pos : Nat) : (gsub5 b pos).noPanic := gsub5G_noPanic false b pos
+
+/-- FINDING (repaired in /repo 8867078): before the range check the format word 11 under lookup
+type 5 hit the key 6_1 and ran `readChainedSeqContext1`, 65497 wrapped to 1_1 (`readGsub1_1`);
+now both are invalid -/
+example : gsub5Old [0,11, 0,6, 0,0, 0,1, 0,0] 0 = .err "other-reader" ∧
+    gsub5Old [0xff,0xd9, 0,6, 0,0, 0,1, 0,0] 0 = .err "other-reader" ∧
+    gsub5 [0,11, 0,6, 0,0, 0,1, 0,0] 0 = .err "invalid" ∧
+    gsub5 [0xff,0xd9, 0,6, 0,0, 0,1, 0,0] 0 = .err "invalid" := by decide +kernel
 
 /-! ## non-vacuity -/
 
